@@ -4645,6 +4645,12 @@ class TLSConnection(TLSRecordLayer):
             for result in self._sendError(
                     AlertDescription.insufficient_security):
                 yield result
+        except TLSInternalError as alert:
+            # the key can't sign the message (e.g. rsa-pss key below TLS 1.2)
+            for result in self._sendError(
+                    AlertDescription.internal_error,
+                    str(alert)):
+                yield result
 
         #Send ServerHello[, Certificate or Compressed Certificate],
         #ServerKeyExchange, ServerHelloDone
